@@ -23,8 +23,14 @@ TRUSTED = [
 ASSUMPTIONS = [
     "records have non-empty extent (start < stop) and query windows are proper (start < stop); degenerate rows are "
     "characterised separately (partial_zero_length)",
-    "attribute queries are substring matches over lower-case alphanumeric tokens (sqlite LIKE is ASCII case-insensitive "
-    "and treats _ as a wildcard; generators avoid those characters on the spec side, the model has them)",
+    "columns seqid/biotype/name/strand are matched exactly (case-sensitive) unless the value contains the documented "
+    "% wildcard; `attributes` is the documented substring search, i.e. sqlite LIKE %text% (ASCII case-insensitive, "
+    "_ = any character) — the oracle implements LIKE from its documentation; strand may be given as '+', '-', 1, -1 "
+    "(stored and compared as text)",
+    "names the loader makes up for GFF rows without an ID (unknown-<n>) are not compared by the spec-level oracle "
+    "(the model-vs-real comparison does compare them)",
+    "gff_load_block_independent assumes no feature lists the same span twice (duplicate rows of one ID are collapsed "
+    "only across blocks: gff_blocks_duplicate_row_counter, replayed against the real loader by the correspondence)",
     "copy/deepcopy/pickle/write+reload/to_json round trips are exercised against the multiset oracle, not modelled",
     "GFF IDs are unique per feature (rows sharing an ID are one multi-span feature), as GFF3 requires",
 ]
@@ -730,33 +736,164 @@ def run_multiset_case(mc, scratch, out=None, tag="ms"):
     return fails
 
 
+def _rows(db):
+    return srt(canon_rec(r) for t in db.table_names for r in raw_rows(db, t))
+
+
+def run_chain_case(cc, scratch, out=None, tag="ch"):
+    """subset -> union -> update chains (any order / length) starting from a file-backed or in-memory db; after
+    EVERY step the db must hold the multiset the oracle computes, and every copy route (deepcopy, pickle,
+    to_json/from_dict, write+reload) must reproduce it without changing the source"""
+    fails = []
+    inp = dict(chain_case=cc)
+    a, b = cc["a"], cc["b"]
+    try:
+        cur = build_db(a, scratch, tag + "a")
+        other = build_db(b, scratch, tag + "b")
+        if cc.get("a_file"):
+            cur = copy_db(cur, "write", scratch, tag)
+        if cc.get("b_file"):
+            other = copy_db(other, "write", scratch, tag)
+    except Exception as e:  # noqa: BLE001
+        return [("building the chain's dbs raised", inp, "dbs", repr(e), f"chain:build:raises:{type(e).__name__}")]
+    exp, kind = list(a["intent"]), a["kind"]
+    for n, st in enumerate(cc["steps"]):
+        where = lambda db: "file" if db.source != ":memory:" else "mem"
+        try:
+            if st[0] == "subset":
+                q = st[1]
+                kw = {k: v for k, v in q.items() if v is not None}
+                if len(st) > 2 and st[2]:
+                    _COPY_N[0] += 1
+                    kw["source"] = str(scratch / f"c17_sub_{tag}_{_COPY_N[0]}.sqlitedb")
+                cur = cur.subset(**kw)
+                exp = oracle_select(exp, q)
+            elif st[0] == "union":
+                ok = kind == b["kind"] or "basic" in (kind, b["kind"]) or not b["intent"]
+                try:
+                    cur = cur.union(other)
+                except TypeError:
+                    if ok:
+                        fails.append(("union raised TypeError for compatible classes", dict(inp, step=n), "a db", "TypeError", f"chain:union:TypeError:{kind}:{b['kind']}"))
+                    return fails
+                if not ok:
+                    fails.append(("union of incompatible classes did not raise", dict(inp, step=n), "TypeError", "a db", f"chain:union:no-TypeError:{kind}:{b['kind']}"))
+                    return fails
+                exp = exp + list(b["intent"])
+                kind = kind if kind != "basic" or not b["intent"] else b["kind"]
+            else:
+                seqids = st[1]
+                ok = kind == b["kind"] or b["kind"] == "basic"
+                try:
+                    cur.update(other, seqids=seqids)
+                except TypeError:
+                    if ok:
+                        fails.append(("update raised TypeError for compatible classes", dict(inp, step=n), "updated", "TypeError", f"chain:update:TypeError:{kind}:{b['kind']}"))
+                    return fails
+                if not ok:
+                    fails.append(("update from an incompatible class did not raise", dict(inp, step=n), "TypeError", "updated", f"chain:update:no-TypeError:{kind}:{b['kind']}"))
+                    return fails
+                sel = (lambda r: True) if not seqids else (lambda r: r["seqid"] in ([seqids] if isinstance(seqids, str) else seqids))
+                exp = exp + [r for r in b["intent"] if sel(r)]
+        except Exception as e:  # noqa: BLE001
+            fails.append((f"{st[0]} raised in a chain", dict(inp, step=n), "no exception", f"{type(e).__name__}: {e}", f"chain:{st[0]}:raises:{type(e).__name__}"))
+            return fails
+        want = srt(canon_rec(r) for r in exp)
+        got = _rows(cur)
+        if out is not None:
+            out["evaluations"] += 1
+            bump(out, "chain_step", f"{st[0]}:{where(cur)}")
+            if want:
+                out["nontrivial"].add(("chain", json.dumps(cc, sort_keys=True)[:300], n))
+        if got != want:
+            fails.append((f"after {st[0]} the db does not hold the expected multiset", dict(inp, step=n), want, got, f"chain:{st[0]}:state:{where(cur)}"))
+            return fails
+        for route in COPIES:
+            try:
+                c = copy_db(cur, route, scratch, tag)
+                gc, gs = _rows(c), _rows(cur)
+            except Exception as e:  # noqa: BLE001
+                gc, gs = f"raised {type(e).__name__}: {e}", want
+            if out is not None:
+                out["evaluations"] += 1
+            if gc != want or gs != want:
+                sig = "copy:json:file-backed" if route == "json" and where(cur) == "file" else f"chain:{st[0]}:copy:{route}:{where(cur)}"
+                fails.append((f"{route} copy after {st[0]} does not reproduce the records (or changed the source)", dict(inp, step=n, route=route),
+                              dict(copy=want, source_after=want), dict(copy=gc, source_after=gs), sig))
+                return fails
+    return fails
+
+
+def gen_chain_case(rng, plans):
+    ka, ha = rng.choice(plans)
+    kb, hb = rng.choice(plans)
+    a = _one_block(build_case(rng, ka, ha, rng.choice([1, 2, 3, 5])))
+    b = _one_block(build_case(rng, kb, hb, rng.choice([0, 1, 2, 4])))
+    steps = []
+    for _ in range(rng.randint(1, 4)):
+        r = rng.random()
+        if r < 0.4:
+            q = rng.choice(gen_queries(rng, a["intent"] + b["intent"], 3))
+            steps.append(["subset", q, rng.random() < 0.3])
+        elif r < 0.7:
+            steps.append(["union"])
+        else:
+            steps.append(["update", rng.choice([None, None, "s1", ["s1", "S1"], ["chrx"], "s_1"])])
+    return dict(a=a, b=b, a_file=rng.random() < 0.5, b_file=rng.random() < 0.3, steps=steps)
+
+
 # --------------------------------------------------------------------------
 # spec check
 # --------------------------------------------------------------------------
 def spec_check(ctx, budget):
     out = new_outcome(
-        "the three db classes filled by add_feature / generated GFF3 text (random lines_per_block) / generated GenBank "
-        "text (one file per seqid) vs a Python linear scan: window-only queries over the boundary lattice (each record "
-        "edge -1/0/+1) x allow_partial, every subset of {seqid,biotype,name,strand,attributes} x {no window, partial, "
-        "within, start-only, stop-only}; get_records_matching, num_matches, len; union/update/subset/deepcopy/pickle/"
-        "json/write+reload vs multiset arithmetic; non-trivial = query selecting a non-empty proper subset, or a "
-        "multiset op on a non-empty db"
+        "the three db classes filled by add_feature (strand '+','-',1,-1,None; reversed / shuffled spans) / generated GFF3 "
+        "text (ID'd multi-row features scattered over the file plus many rows WITHOUT an ID: Parent-only, note-only, "
+        "8-column; lines_per_block in {None,1,2,3,5,8} giving 1, 2, 3+ blocks; the record list is obtained by an "
+        "independent parse of the same text and compared as a multiset of (seqid, biotype, spans, strand, parent, "
+        "start, stop) ignoring only loader-made names) / generated GenBank text (join, order, complement(join), mixed "
+        "strands, <,> partial ends, origin-spanning joins; one file per seqid and multi-record files) vs a Python "
+        "linear scan. Identifiers differ only by letter case or '_' in every column, % patterns where documented. "
+        "Queries: window-only over the boundary lattice (each record edge -1/0/+1) x allow_partial; every subset of "
+        "{seqid,biotype,name,strand,attributes} x {no window, partial, within, start-only, stop-only}; "
+        "get_features_matching = get_records_matching = num_matches = count_distinct = scan; len. "
+        "subset/union/update chains (file-backed or in-memory start, subset to file) with deepcopy/pickle/json/"
+        "write+reload after EVERY step vs multiset arithmetic. non-trivial = query selecting a non-empty proper "
+        "subset, or a multiset/chain step on a non-empty db"
     )
     rng = ctx.subrng(f"spec{budget}")
     scratch = ctx.scratch
     n_db = 10 * budget
-    plans = [("basic", "add"), ("gff", "add"), ("genbank", "add"), ("gff", "gff"), ("gff", "gff"), ("genbank", "gb")]
+    plans = [("basic", "add"), ("gff", "add"), ("genbank", "add"), ("gff", "gff"), ("gff", "gff"), ("genbank", "gb"),
+             ("gff", "gff"), ("genbank", "gbmulti")]
     for i in range(n_db):
         kind, how = plans[i % len(plans)]
         case = build_case(rng, kind, how, rng.choice([1, 2, 3, 4, 6, 8]))
         bump(out, "source", f"{kind}:{how}")
         bump(out, "n_records", len(case["intent"]))
         if how == "gff":
-            bump(out, "lines_per_block", str(case["lines_per_block"]))
+            nb = n_blocks(case)
+            bump(out, "gff_blocks", "1" if nb == 1 else "2" if nb == 2 else "3+")
+            bump(out, "gff_rows_without_id", min(sum(1 for w in case["rows"] if w["id"] is None), 6))
         for what, inp, want, got, sig in run_case(case, scratch, out, rng, n_windows=40 if budget <= 1 else 80, tag=f"s{i}"):
             add_failure(out, "spec", what, inp, want, got, sig=sig)
         if len(out["samples"]) < 3:
             out["samples"].append(dict(kind=kind, how=how, intent=case["intent"][:3]))
+    # GFF files dominated by ID-less rows, read in 1, 2, 3+ blocks (fake-name bookkeeping across blocks)
+    for i in range(6 * budget):
+        case = build_case(rng, "gff", "gff", rng.choice([0, 1, 2]))
+        while sum(1 for w in case["rows"] if w["id"] is None) < 4:
+            case = build_case(rng, "gff", "gff", rng.choice([0, 1, 2]))
+        for lpb in (None, 1, 2, 3, 5):
+            c2 = dict(case, lines_per_block=lpb)
+            bump(out, "idless_gff_blocks", "1" if n_blocks(c2) == 1 else "2" if n_blocks(c2) == 2 else "3+")
+            for what, inp, want, got, sig in run_case(c2, scratch, out, rng, n_windows=6, tag=f"u{i}"):
+                add_failure(out, "spec", what, inp, want, got, sig=sig)
+    # chains subset -> union -> update with copies after each step
+    for i in range(10 * budget):
+        cc = gen_chain_case(rng, plans[:6])
+        for what, inp, want, got, sig in run_chain_case(cc, scratch, out, tag=f"c{i}"):
+            add_failure(out, "spec", what, inp, want, got, sig=sig)
     # multiset preservation
     n_ms = 12 * budget
     for i in range(n_ms):
@@ -774,14 +911,14 @@ def spec_check(ctx, budget):
             if rng.random() < 0.5:
                 mc = dict(a=a, b=b, op=["union"])
             else:
-                op = ["update", rng.choice([None, None, "s1", ["s1", "s2"], ["chrx"]])]
+                op = ["update", rng.choice([None, None, "s1", ["s1", "S1"], ["chrx"], "s_1"])]
                 if rng.random() < 0.6:
                     op.append(COPIES[i % len(COPIES)])
                 mc = dict(a=a, b=b, op=op)
         for what, inp, want, got, sig in run_multiset_case(mc, scratch, out, tag=f"m{i}"):
             add_failure(out, "spec", what, inp, want, got, sig=sig)
     # every copy route x class x {in-memory, file-backed}, and every copy route after an update
-    for kind, how in plans[:3] + plans[3:4] + plans[5:]:
+    for kind, how in plans[:4] + plans[5:6]:
         a = _one_block(build_case(rng, kind, how, 3))
         for route in COPIES:
             for extra in ([], ["file-backed"]):
@@ -793,7 +930,7 @@ def spec_check(ctx, budget):
             for what, inp, want, got, sig in run_multiset_case(mc, scratch, out, tag="uc"):
                 add_failure(out, "spec", what, inp, want, got, sig=sig)
     # subset over every subset of arguments x window mode on one db per class (the cross product the property names)
-    for kind, how in plans[:3] + plans[3:4] + plans[5:]:
+    for kind, how in plans[:4] + plans[5:6]:
         a = _one_block(build_case(rng, kind, how, 5))
         for q in gen_queries(rng, a["intent"], 2):
             mc = dict(a=a, b=None, op=["subset", q])
@@ -1002,6 +1139,20 @@ def correspondence(ctx):
         reqs.append(("gffload", dict(blocks=blocks)))
         reals.append(srt(canon_rec(r, attrs=True, exact=True) for r in raw_rows(db, "gff")))
         cases.append(case)
+    # fixed inputs: the same row of one ID twice (the only case in which the block size matters: see
+    # gff_blocks_duplicate_row_counter), in one block and in two
+    dup = "##gff-version 3\n" + "s1\tsrc\tcds\t3\t5\t.\t-\t.\tID=c1\n" * 2
+    for lpb in (None, 2, 1):
+        _, rows = parse_gff_text(dup)
+        case = dict(kind="gff", how="gff", text=dup, lines_per_block=lpb, rows=rows, intent=[])
+        groups = {}
+        for w in rows:
+            groups.setdefault(0 if not lpb else w["line"] // lpb, []).append(
+                {x: w[x] for x in ("id", "seqid", "biotype", "strand", "attrs", "start", "stop")})
+        db = build_db(case, scratch, f"gd{lpb}")
+        reqs.append(("gffload", dict(blocks=[groups[b] for b in sorted(groups)])))
+        reals.append(srt(canon_rec(r, attrs=True, exact=True) for r in raw_rows(db, "gff")))
+        cases.append(case)
     for case, real, rep in zip(cases, reals, ctx.driver.batch(reqs)):
         out["evaluations"] += 1
         mod = srt(canon_rec(r, attrs=True, exact=True) for r in rep)
@@ -1058,7 +1209,7 @@ def _op_histories(ctx, out, rng, scratch):
                     mops.append(["add", i, rec])
                     log.append("add")
                 elif r < 0.4:
-                    seqids = rng.choice([None, None, "s1", ["s1", "s2"], "s%", []])
+                    seqids = rng.choice([None, None, "s1", ["s1", "S1"], "s%", "s_1", []])
                     mops.append(["update", i, k, seqids])
                     log.append(f"update {_kind_of(dbs[i])}<-{_kind_of(dbs[k])}")
                     dbs[i].update(dbs[k], seqids=seqids)
@@ -1143,13 +1294,17 @@ def _first_failure(fails):
 def check_witness(ctx, w):
     if w["type"] == "multiset":
         return _first_failure(run_multiset_case(w["multiset_case"], ctx.scratch, tag="wit"))
+    if w["type"] == "chain":
+        return _first_failure(run_chain_case(w["chain_case"], ctx.scratch, tag="wit"))
     return _first_failure(run_case(w["case"], ctx.scratch, queries=w.get("queries", []), tag="wit"))
 
 
 def replay(ctx, data):
     f = data.get("failing_input") or {}
     inp = f.get("input") or {}
-    if "multiset_case" in inp:
+    if "chain_case" in inp:
+        fails = run_chain_case(inp["chain_case"], ctx.scratch, tag="rep")
+    elif "multiset_case" in inp:
         fails = run_multiset_case(inp["multiset_case"], ctx.scratch, tag="rep")
     elif "case" in inp:
         fails = run_case(inp["case"], ctx.scratch, queries=[inp["query"]] if "query" in inp else [], tag="rep")
